@@ -39,12 +39,6 @@ Section TO.
     | _, _ => False
     end.
 
-  Lemma pos_field_facts fd : pos_field fd = true -> (f_tag fd =? 0) = false /\ f_setver fd = false /\ f_range fd = None.
-  Proof.
-    unfold pos_field. rewrite !andb_true_iff. intros ((H1 & H2) & H3). apply negb_true_iff in H1, H2.
-    destruct (f_range fd); [discriminate|]. auto.
-  Qed.
-
   (** a run of required fields at the head of a reflectively encoded structure *)
   Lemma required_rt fl : forall g fc st vl fl2 vl2 items st',
     Q g -> conf_required (conf_ty fc) st fl vl = true ->
